@@ -55,6 +55,23 @@ CHECKS = {
         note="Exhaustive over finite pools (quick ~16k scenarios, thorough ~170k), not over all byte strings; SPS fields "
              "that do not affect the size are fixed by the trusted bit writer; H.265 oracle is the coded luma size.",
         ref="6/C19"),
+    "C13": dict(
+        technique="explicit TLA+ protocol machines per surface (spec/Surfaces.tla: RTP/RTCP on an RTSP publish session, "
+                  "GB28181 PS over RTP, RTSP requests, SDP fields, WebSocket frames; TLC enumeration of classed element "
+                  "sequences) + execution of each sequence against the real lal objects in child processes + TLC trace "
+                  "validation (spec/Trace_Surfaces.tla)",
+        text="TLC enumerates every order of core protocol elements to depth 2-4 followed by any pooled element (each field at "
+             "a finite pool of extremes, truncation at every offset of the fixed headers) and checks that the model's "
+             "expectation is total and never admits a crash; the sequences are executed against a real ServerManager / "
+             "rtsp.ServerCommandSession / gb28181.PsUnpacker in child processes; a process death, a recovered panic, an "
+             "unserved second session or a disturbed bystander publisher is an event no behaviour of the spec allows.",
+        note="Decided over protocol-structured classes, not over every byte value. Quick executes all sequences of length <= 2 "
+             "and a seeded sample of longer ones. Sessions run on in-memory connections and PS packets are fed to PsUnpacker "
+             "as PubSession.feedPacket does. Not driven: real UDP sockets, GB28181 TCP 2-byte framing, TLS, HTTP-API / HLS / "
+             "HTTP-FLV / HTTP-TS request parsing (the HLS / RTSP handlers are reached by C14), and lal as RTMP / RTSP / "
+             "HTTP-FLV client; those clauses of C13 are not decided by this check. RTMP chunk / AMF / FLV input surfaces "
+             "are covered by C08 / C18 / C04 / C05.",
+        ref="6/C13"),
     "C12": dict(
         technique="TLA+ spec Rtp (packer acceptor, reorder network, lal's RtpPacketList / RtpUnpackContainer / TryUnpackOne; "
                   "TLC exhaustive on a scaled model) + re-concretised cases run through lal's packer and unpack container, "
